@@ -74,7 +74,8 @@ class Monitor(object):
                     self.violate("record_field_not_decimal", {"field": name, "value": repr(v), "record_type": r.record_type, "id": r.id_number})
                     return
             self.hub.flags.add("decimal_record")
-            if r.record_type == "service":
+            continued = any(x.record_type == "interrupted service" and x.node == r.node and x.arrival_date == r.arrival_date for x in ind.data_records)
+            if r.record_type == "service" and not continued:      # (a resumed service does not last its sample; C11's business)
                 smp = [v for (t, v) in self.srv.get((r.node, r.id_number), []) if Fraction(t) == Fraction(r.service_start_date)]
                 if len(smp) == 1 and Fraction(r.service_end_date) != Fraction(r.service_start_date) + Fs(smp[0]):
                     self.violate("service_end_not_exact_sum", {"id": r.id_number, "start": str(r.service_start_date), "sample": smp[0], "end": str(r.service_end_date)})
